@@ -11,6 +11,9 @@ CONSTANTS
   SpUnits = {"la","K"}
   Hists = {"modify","readd","tworeg"}
   HUnits = {"la","lb","ta"}
+  ArrForms = {"call","kw","kwall","out","kwout","lo","hi","kwlo","kwhi","alias","aliaslo","aliashi","aliasout","method","methodkw","methodlo","methodhi"}
+  AliasOps = {"clip"}
+  DlUnits = {"pc","nq","lr"}
 INIT Init
 NEXT NextAll
 INVARIANT Export
